@@ -13,7 +13,7 @@ from .oracles import guarded, sample
 from .workload import Gen
 
 
-def token_codec_sweep(ctx):
+def token_codec_sweep(ctx, clause="C09.token_roundtrip"):
     """Tokens round-trip through their text encoding for every (prefix index, path): sampled
     directly, including prefix indexes of several digits and long paths."""
     from traph.helpers import build_pagination_token, parse_pagination_token
@@ -30,7 +30,7 @@ def token_codec_sweep(ctx):
             back = parse_pagination_token(tok)
         except Exception as e:
             back = ("raised", type(e).__name__)
-        ctx.check("C09.token_roundtrip", back == (i, path), lambda: "token %r built from (prefix index %d, path %d) parses back to %r" % (tok, i, path, back))
+        ctx.check(clause, back == (i, path), lambda: "token %r built from (prefix index %d, path %d) parses back to %r" % (tok, i, path, back))
 
 
 def token_roundtrip(ctx, token):
@@ -300,6 +300,7 @@ def gen_C09(rng, tier, seed):
 # ---------------------------------------------------------------------------
 def sweep_C10(ctx):
     m, t = ctx.model, ctx.t
+    token_codec_sweep(ctx, "C10.token_roundtrip")
     p2w = m.page_to_we()
     for w in m.weids():
         prefs = m.we_prefixes(w)
